@@ -104,3 +104,10 @@ def run(ctx):
              "in 1..10^4; per form the slice trace (pause/done/error + instruction count per slice) is compared with "
              "the Lean loop model and outcome/output/globals with the uninterrupted VM; non-trivial = interrupted at "
              "least once; distinct by (instruction count, budgets)")
+
+
+# ROUND 8: the Ext laws are theorems for a table of real builtins (lib/props/procinv_util.py, Lemmas/ListExtC13.lean)
+import procinv_util as _pv8
+MODULE = _pv8.listext_module("C13")
+THEOREMS = THEOREMS + [t for t in _pv8.LISTEXT_LAWS + _pv8.LISTEXT["C13"] if t not in THEOREMS]
+META["note"] = META["note"] + _pv8.LISTEXT_NOTE
